@@ -128,6 +128,17 @@ def _empty(obj):
         obj.clear()
 
 
+def attempt_twice(fails, sig, fn, *args, **kwargs):
+    """attempt(), then the same call again with the very same argument objects: a deterministic function must return the
+    same value (or refuse again). Catches results that depend on an earlier call or on arguments consumed in place."""
+    r = attempt(fn, *args, **kwargs)
+    again = attempt(fn, *args, **kwargs)
+    same = (raised(r) and raised(again) and r.kind == again.kind) or (not raised(r) and not raised(again) and r == again)
+    if not same:
+        fails.add(sig, f"first {r!r}"[:150] + f" second {again!r}"[:150])
+    return r
+
+
 def attempt_owned(fails, sig, fn, *args, **kwargs):
     """attempt(), plus a call-history relation for functions that return dicts / lists: the caller owns what it is handed,
     so the first result is emptied (recursively) and the same call made again must return the same value. Returns a deep
